@@ -99,28 +99,6 @@ Definition detect_compression (file : list byte) : option bool :=
     else Some false
   else Some false.
 
-(* one session: open, append all, close.  None = open failed *)
-Definition session (want_comp : bool) (file : list byte) (ps : list (list byte)) : option (list byte) :=
-  match file with
-  | [] =>
-    let pre := if want_comp then phys T_SETCOMP [1%N] else [] in
-    Some (pre ++ fst (add_records want_comp (length pre) ps))
-  | _ =>
-    match detect_compression file with
-    | None => None
-    | Some c => Some (file ++ fst (add_records c (length file mod B) ps))
-    end
-  end.
-
-Fixpoint sessions (want_comp : bool) (file : list byte) (ss : list (list (list byte))) : option (list byte) :=
-  match ss with
-  | [] => Some file
-  | ps :: r => match session want_comp file ps with
-               | None => None
-               | Some f => sessions want_comp f r
-               end
-  end.
-
 (* ------------------------------------------------------------------ reader *)
 Record rst := { acc : list byte; idx : nat; comp : bool }.
 Definition rst0 : rst := {| acc := []; idx := 0; comp := false |}.
@@ -206,6 +184,51 @@ Definition read_all (file : list byte) : list (list byte * nat) * tail :=
   read_blocks (chunks (length file) file) 0 rst0.
 
 Definition records (file : list byte) : list (list byte) := map fst (fst (read_all file)).
+
+(* ------------------------------------------------------------------ sessions *)
+(* Wal::create_writer on an existing segment first drops a torn tail: the segment is cut back to the
+   prefix that replay delivers when replay ends with a clean end of log (a leading
+   SetCompressionType record is kept); a damaged segment (corruption report) is left as it is. *)
+Definition comp_header_len (file : list byte) : nat :=
+  if length file <? H then 0 else
+  if N.eqb (nth 6 file 0%N) T_SETCOMP then
+    let len := N.to_nat (nth 4 file 0%N) * 256 + N.to_nat (nth 5 file 0%N) in
+    if H + len <=? length file then H + len else 0
+  else 0.
+Definition valid_prefix_len (file : list byte) : option nat :=
+  let '(recs, t) := read_all file in
+  match t with
+  | Eof => Some (Nat.max (last (map snd recs) 0) (comp_header_len file))
+  | Corrupt _ _ => None
+  end.
+Definition drop_torn_tail (file : list byte) : list byte :=
+  match valid_prefix_len file with
+  | Some e => if e <? length file then firstn e file else file
+  | None => file
+  end.
+
+(* one session: open, append all, close.  None = open failed *)
+Definition session (want_comp : bool) (file0 : list byte) (ps : list (list byte)) : option (list byte) :=
+  let file := drop_torn_tail file0 in
+  match file with
+  | [] =>
+    let pre := if want_comp then phys T_SETCOMP [1%N] else [] in
+    Some (pre ++ fst (add_records want_comp (length pre) ps))
+  | _ =>
+    match detect_compression file with
+    | None => None
+    | Some c => Some (file ++ fst (add_records c (length file mod B) ps))
+    end
+  end.
+
+Fixpoint sessions (want_comp : bool) (file : list byte) (ss : list (list (list byte))) : option (list byte) :=
+  match ss with
+  | [] => Some file
+  | ps :: r => match session want_comp file ps with
+               | None => None
+               | Some f => sessions want_comp f r
+               end
+  end.
 
 (* ------------------------------------------------------------------ repair *)
 (* repair_corrupted_wal_segment: re-append the delivered records to a fresh segment
